@@ -168,6 +168,45 @@ where
     hist.truncate(base);
 }
 
+/// In the state reached by `hist`, the consuming methods (which an implementation may override: last, count, fold, rfold,
+/// collect, rev) must agree with the remaining items of the model.  Each runs on its own clone.
+fn consume_check<I, E>(m: &mut Mon, it: &I, md: &Model, make: &dyn Fn(usize) -> E, hist: &[Op], st: &mut IterStats, profile: &str)
+where
+    I: Iterator<Item = E> + DoubleEndedIterator + ExactSizeIterator + Clone,
+    E: Debug + PartialEq,
+{
+    let rest: Vec<usize> = md.clone().collect();
+    let want_all: Vec<E> = rest.iter().map(|i| make(*i)).collect();
+    let want_rev: Vec<E> = rest.iter().rev().map(|i| make(*i)).collect();
+    let want_last: Option<E> = rest.last().map(|i| make(*i));
+    let mut report = |m: &mut Mon, what: &str, want: String, got: Result<String, String>| {
+        st.calls += 1;
+        m.event_fast(Some(hash_of(&(hist, profile, what))));
+        let got = match got {
+            Ok(g) => g,
+            Err(p) => format!("panic: {}", p),
+        };
+        if got != want {
+            m.viol(
+                &format!("iter:consume:{}", what),
+                jobj(&[("history", jstr(&format!("{} then {}()", hist_str(hist), what))), ("profile", jstr(profile)), ("expected", jstr(&want)), ("observed", jstr(&got))]),
+            );
+        }
+    };
+    let g = catch_unwind(AssertUnwindSafe(|| format!("{:?}", it.clone().last()))).map_err(|e| panic_msg(&e));
+    report(m, "last", format!("{:?}", want_last), g);
+    let g = catch_unwind(AssertUnwindSafe(|| format!("{:?}", it.clone().count()))).map_err(|e| panic_msg(&e));
+    report(m, "count", format!("{:?}", rest.len()), g);
+    let g = catch_unwind(AssertUnwindSafe(|| format!("{:?}", it.clone().collect::<Vec<E>>()))).map_err(|e| panic_msg(&e));
+    report(m, "collect", format!("{:?}", want_all), g);
+    let g = catch_unwind(AssertUnwindSafe(|| format!("{:?}", it.clone().rev().collect::<Vec<E>>()))).map_err(|e| panic_msg(&e));
+    report(m, "rev().collect", format!("{:?}", want_rev), g);
+    let g = catch_unwind(AssertUnwindSafe(|| format!("{:?}", it.clone().fold(Vec::new(), |mut a, x| { a.push(x); a })))).map_err(|e| panic_msg(&e));
+    report(m, "fold", format!("{:?}", want_all), g);
+    let g = catch_unwind(AssertUnwindSafe(|| format!("{:?}", it.clone().rfold(Vec::new(), |mut a, x| { a.push(x); a })))).map_err(|e| panic_msg(&e));
+    report(m, "rfold", format!("{:?}", want_rev), g);
+}
+
 fn dfs<I, E>(m: &mut Mon, it: &I, md: &Model, n: usize, make: &dyn Fn(usize) -> E, ops: &[Op], depth: usize, hist: &mut Vec<Op>, st: &mut IterStats, profile: &str)
 where
     I: Iterator<Item = E> + DoubleEndedIterator + ExactSizeIterator + Clone,
@@ -177,6 +216,7 @@ where
     if depth == 0 {
         st.histories += 1;
         fused_check(m, it, md, make, hist, st, profile);
+        consume_check(m, it, md, make, hist, st, profile);
         return;
     }
     for &op in ops {
@@ -266,6 +306,7 @@ where
         }
         st.histories += 1;
         fused_check(m, &it, &md, make, &mut hist, &mut st, profile);
+        consume_check(m, &it, &md, make, &hist, &mut st, profile);
     }
     m.count_n(&format!("iter/{}/histories", profile), st.histories);
     m.count_n(&format!("iter/{}/calls", profile), st.calls);
